@@ -42,6 +42,29 @@ int sscanf(const char *s, const char *fmt, ...)
 	return 1;
 }
 
+/* strtoul / strtol as a scanner action may use them instead of sscanf on a short digit string (assumed contract: C11
+ * 7.22.1.4; base 0 selects by prefix: 0x hexadecimal, 0 octal, else decimal; at most 10 digits are looked at) */
+unsigned long strtoul(const char *s, char **end, int base)
+{
+	unsigned long v = 0; unsigned n = 0, i = 0; _Bool neg = 0;
+	while (s[i] == ' ' || (s[i] >= '\t' && s[i] <= '\r')) { i++; if (i > 4) break; }
+	if (s[i] == '+') i++; else if (s[i] == '-') { neg = 1; i++; }
+	if ((base == 0 || base == 16) && s[i] == '0' && (s[i + 1] == 'x' || s[i + 1] == 'X')) {
+		unsigned char c = (unsigned char)s[i + 2];
+		if ((c >= '0' && c <= '9') || (c >= 'a' && c <= 'f') || (c >= 'A' && c <= 'F')) { i += 2; base = 16; }
+		else if (base == 0) base = 8;
+	} else if (base == 0) base = s[i] == '0' ? 8 : 10;
+	for (; n < 10; n++) {
+		unsigned char c = (unsigned char)s[i + n]; unsigned d;
+		if (c >= '0' && c <= '9') d = c - '0'; else if (c >= 'a' && c <= 'z') d = c - 'a' + 10; else if (c >= 'A' && c <= 'Z') d = c - 'A' + 10; else break;
+		if (d >= (unsigned)base) break;
+		v = v * (unsigned)base + d;
+	}
+	if (end) *end = (char *)(n ? s + i + n : s);
+	return neg ? 0ul - v : v;
+}
+long strtol(const char *s, char **end, int base) { return (long)strtoul(s, end, base); }
+
 /* getenv: ghost verdict - unset, or a value of at most 2 arbitrary bytes; the name asked for is recorded */
 static char g_env_value[3]; static _Bool g_env_set; static char g_env_asked[8]; static int g_env_calls;
 char *getenv(const char *name)
